@@ -9,7 +9,7 @@ const X = require('../oracles/exec')
 
 // (kept-ident-before-effect: an identifier operand handed to the hook is read AFTER a later operand ran code that may
 // reassign it - the hook is told about a value the original operation never saw)
-const C03_RULES = new Set(['hook-operands', 'hook-arg-not-simple', 'hook-arg-spread', 'spread-not-materialised', 'kept-ident-before-effect'])
+const C03_RULES = new Set(['hook-operands', 'hook-arg-not-simple', 'hook-arg-spread', 'spread-not-materialised', 'kept-ident-before-effect', 'temp-order'])
 
 function sameValue (w, a, b) {
   if (a === b || (a !== a && b !== b)) return true // eslint-disable-line no-self-compare
